@@ -63,13 +63,18 @@ def run(ctx):
 def nanmask(ctx, lim):
     rep = ctx.rep
     for shape, nan_at, full_output in (((4,), {1, 3}, False), ((4,), {0}, True), ((2, 2), {2}, False), ((3,), set(), False),
-                                       ((), {0}, False), ((2,), {0, 1}, True)):
+                                       ((), {0}, False), ((2,), {0, 1}, True), ('T(3, 2)', {1, 4}, False), ('T(2, 2)', {2}, True)):
+        transposed = isinstance(shape, str)
+        if transposed:
+            base_shape = tuple(int(v) for v in shape[2:-1].split(','))[::-1]
+            shape = base_shape[::-1]
         n = 1
         for s in shape:
             n *= s
         holder = {}
 
-        def body(s, shape=shape, nan_at=nan_at, full_output=full_output, n=n):
+        def body(s, shape=shape, nan_at=nan_at, full_output=full_output, n=n, transposed=transposed,
+                 base_shape=base_shape if transposed else None):
             I = s.interp
             L = I.get_global('limits', 'Limit')
             finite = {}
@@ -89,11 +94,18 @@ def nanmask(ctx, lim):
                     for v in items:
                         cs = [t[1] for t in tags_of(v) if t[0] == 'x']
                         out.append(one(cs[0] if len(cs) == 1 else -1, v))
-                    return Arr(z.shape, out)
+                    res = Arr(z.shape, out)
+                    res.memrank = z.mem_rank()        # an elementwise function keeps the memory layout of its argument
+                    return res
                 cs = [t[1] for t in tags_of(z) if t[0] == 'x']
                 return one(cs[0] if len(cs) == 1 else -1, z)
             holder['finite'] = finite
             d = L(f, full_output=full_output, num_steps=9)
+            if transposed:
+                x = s.x_array(base_shape).transpose()          # a Fortran ordered view; identities follow logical positions
+                for c, p in enumerate(x.pos):
+                    x.buf.data[p] = DV({('x', c)}, 'f', 'any', sel={('x', c)})
+                return d(x)
             return d(s.x_array(shape))
         # isnan on the finite DV values must be decidable: they are finite by construction
         orig = DV.isnan_
@@ -102,7 +114,7 @@ def nanmask(ctx, lim):
             ex = explore(ctx.repo, body, pinned={'(np.abs(step) > 0).all()': True})
         finally:
             DV.isnan_ = orig
-        label = 'Limit/z.shape=%s/singular at %s/full_output=%s' % (shape, sorted(nan_at), full_output)
+        label = 'Limit/z.shape=%s%s/singular at %s/full_output=%s' % (shape, ' (transposed view)' if transposed else '', sorted(nan_at), full_output)
         for decisions, res, exc in ex.paths:
             path = ', '.join('%s=%s' % (d[1][:30], d[0]) for d in decisions) or 'straight'
             if exc is not None:
@@ -122,6 +134,9 @@ def nanmask(ctx, lim):
                             problems.append('element %d: singular value not replaced' % c)
                         elif [t for t in tags_of(e) if t[0] == 'x' and t[1] != c]:
                             problems.append('element %d: limit depends on other elements %s' % (c, sorted(tags_of(e))))
+                        elif ('x', c) not in tags_of(e):
+                            problems.append('element %d: the value returned at the singular point does not depend on the function '
+                                            'near that point (%r)' % (c, e))
                     else:
                         if not (isinstance(e, DV) and e.note == 'finite f(z0)' and tags_of(e) == frozenset({('x', c)})):
                             problems.append('element %d: finite value of f was not returned unchanged (%r)' % (c, e))
